@@ -485,8 +485,9 @@ def c02(d, run):
     if _thorough(run):
         exh_stage(d, run, "real cache deviates from Cache.tla (lookup results / resident values)", "exh_q", ["store", "out", "chan"],
                   ["ResidentOwned", "NeverTwice", "NothingLost"])
-    free_stage(d, run, "the real cache violates a state predicate of Cache.tla at a quiescent point (incl. lookup guards held across clear())",
-               [("sync", "thread", 8, 40), ("async", "thread", 4, 24)])
+    free_stage(d, run, "the real cache violates a state predicate of Cache.tla at a quiescent point (incl. lookup guards held across clear(); "
+               "parallel writers / get_mut on colliding keys)",
+               [("sync", "thread", 8, 40), ("async", "thread", 4, 24)], kinds="norm,par,norm,drop")
     _need(d, h, ["Get", "GetMut", "InsBegin", "RemStore", "PNewStore"])
     run.nontrivial = len(getattr(run, "_distinct", ()))
     run.rule = ("one evaluation = one recorded critical section of the real cache under the baton scheduler; non-trivial = "
@@ -505,6 +506,8 @@ def c06(d, run):
     exh_stage(d, run, "real cache deviates from Cache.tla (resident entries vs policy charges)", "exh_q", ["store", "costs", "chan"], ["Agree", "UsedIsSum"])
     if _thorough(run):
         exh_stage(d, run, "real cache deviates from Cache.tla (resident entries vs policy charges)", "exh", ["store", "costs", "chan"], ["Agree", "UsedIsSum"])
+    free_stage(d, run, "the real cache violates Resident = Charged at a quiescent point (guards held across evictions, parallel remove / insert bursts)",
+               [("sync", "thread", 6, 30), ("async", "thread", 4, 24)], kinds="norm,par,norm")
     _need(d, h, ["PNewAdd", "PNewStore", "PDel", "PDelPolicy", "PVictim", "PCleanupKey", "End"])
     run.nontrivial = len(getattr(run, "_distinct", ()))
     run.rule = ("one evaluation = one recorded critical section; non-trivial = quiescent points reached (end of run after drain, "
@@ -681,7 +684,7 @@ def c04(d, run):
 
 
 LOCK_TTL = [("ttl", "sync", 6, 40), ("ttl_conc", "sync", 4, 30), ("ttl", "async", 4, 20)]
-LOCK_LIFE = [("life", "sync", 6, 40), ("conc_clear", "sync", 6, 40), ("life", "async", 4, 20)]
+LOCK_LIFE = [("life", "sync", 6, 40), ("conc_clear", "sync", 6, 40), ("ring_close", "sync", 6, 40), ("life", "async", 4, 20)]
 LOCK_CFG = [("cfg", "sync", 10, 70), ("evict", "async", 4, 30), ("cond", "sync", 4, 30), ("ring", "sync", 3, 20), ("ttl", "sync", 4, 20)]
 
 
